@@ -57,9 +57,10 @@ type c12Step struct {
 	NIDClass    string `json:"name_id_class,omitempty"`
 	ReqID       string `json:"request_id,omitempty"`
 	RIDClass    string `json:"request_id_class,omitempty"`
-	Custom      bool   `json:"custom_relay_state_func,omitempty"` // middleware: RelayStateFunc returns RelayState
-	Target      string `json:"target,omitempty"`                  // middleware: URL the browser asked for
-	RespBinding string `json:"response_binding,omitempty"`        // MakeAuthenticationRequest's resultBinding: post | artifact
+	Custom      bool   `json:"custom_relay_state_func,omitempty"`              // middleware: RelayStateFunc returns RelayState
+	Target      string `json:"target,omitempty"`                               // middleware: URL the browser asked for
+	RespBinding string `json:"response_binding,omitempty"`                     // MakeAuthenticationRequest's resultBinding: post | artifact
+	Carry       bool   `json:"browser_still_holds_tracking_cookies,omitempty"` // middleware: the browser asks again (reload, second tab) and presents the tracking cookies of the earlier starts
 }
 
 const (
@@ -214,6 +215,13 @@ func genSPEgress(g *Rng, tier string) *Plan {
 			} else {
 				st.RSClass = "default-index"
 			}
+			if g.Bool(0.4) && i+1 < 4 {
+				// the user reloads the page (or a second tab opens) before logging in: same URL, the first start's cookies presented
+				p.Steps = append(p.Steps, mustJSON(st))
+				st.Carry = true
+				i++
+				n++
+			}
 		case st.Kind == "artifact-resolve":
 			s := c12DrawString(g, "reqid", 2)
 			st.ReqID, st.RIDClass = s.s, s.class
@@ -295,6 +303,7 @@ type c12World struct {
 	slo    map[string]string
 	entity string
 	reg    mapSPP
+	jar    []*http.Cookie // the browser's cookies after the most recent middleware start
 }
 
 func c12WithQuery(u, q string) string {
@@ -373,6 +382,28 @@ func (w *c12World) middleware(st c12Step) (*samlsp.Middleware, error) {
 		m.Binding = saml.HTTPPostBinding
 	}
 	return m, nil
+}
+
+// c12MergeCookies is the browser's jar after a reply: a cookie set again replaces the one of that name.
+func c12MergeCookies(held, set []*http.Cookie) []*http.Cookie {
+	var out []*http.Cookie
+	for _, h := range held {
+		replaced := false
+		for _, c := range set {
+			if c.Name == h.Name {
+				replaced = true
+			}
+		}
+		if !replaced {
+			out = append(out, h)
+		}
+	}
+	for _, c := range set {
+		if c.MaxAge >= 0 && c.Value != "" {
+			out = append(out, c)
+		}
+	}
+	return out
 }
 
 func c12BindingURN(s string) string {
@@ -485,8 +516,14 @@ func (w *c12World) emit(st c12Step, rd *c12Reader) *c12Emission {
 		em.mw = m
 		em.respBind = []string{m.ResponseBinding}
 		h := m.RequireAccount(http.HandlerFunc(func(rw http.ResponseWriter, _ *http.Request) { rw.WriteHeader(http.StatusTeapot) }))
-		rep := deliver(h, "GET", st.Target, "", "", nil)
-		em.pan, em.status, em.cookies = rep.Panic, rep.Code, rep.Cookies
+		var carried []*http.Cookie
+		if st.Carry {
+			carried = w.jar
+		}
+		rep := deliver(h, "GET", st.Target, "", "", carried)
+		em.pan, em.status = rep.Panic, rep.Code
+		em.cookies = c12MergeCookies(carried, rep.Cookies)
+		w.jar = em.cookies
 		if rep.Panic != nil {
 			break
 		}
@@ -512,6 +549,16 @@ func (w *c12World) emit(st c12Step, rd *c12Reader) *c12Emission {
 		if p := guard(func() { trs = m.RequestTracker.GetTrackedRequests(probe) }); p != nil {
 			em.pan = p
 			break
+		}
+		if len(trs) == 0 && len(carried) > 0 {
+			// no new tracking state was handed out: what the SP tracks for this start is among what the browser presented
+			for _, c := range carried {
+				probe.AddCookie(&http.Cookie{Name: c.Name, Value: c.Value})
+			}
+			if p := guard(func() { trs = m.RequestTracker.GetTrackedRequests(probe) }); p != nil {
+				em.pan = p
+				break
+			}
 		}
 		if len(trs) == 1 {
 			em.tracked = &trs[0]
